@@ -193,6 +193,8 @@ def run_body(task):
          ctx=ctx_digest(ctx), ctxkeys=(sorted(ctx) if isinstance(ctx, dict) else None),
          extra=getattr(task, 'derived', None))
     act = ent.get('act', 'ok')
+    if ent.get('chdir'):
+        os.chdir(ent['chdir'])      # a task that works in its own directory (and never comes back)
     if ent.get('gate'):
         rel = os.path.join(os.environ['VLAB_CTL'], 'release', name)
         deadline = time.monotonic() + ent.get('gate_timeout', 120)
